@@ -78,5 +78,6 @@ package armor
 //@   ensures#oneline (len(old(r.unread)) == 0 && old(r.err) == nil && err == nil && old(r.started)) ==> len(r.unread) + n <= 48       [C08 C12]
 //@   ensures#buffered len(old(r.unread)) > 0 ==> err == nil && n == min(len(p), len(old(r.unread))) && sub(bytes(p), 0, n) == sub(old(bytes(r.unread)), 0, n) && r.r.$rem == old(r.r.$rem)   [C08 C12]
 //@   call Decode#1 requires len(arg2) <= 64 && len(arg1) == 48 && arg0.$strictstd                                                    [C05 C08 C14]
+//@   call Decode#1 requires nocrlf(bytes(arg2))                                                                                     [C08]
 //@   modifies r.started, r.unread, r.buf, r.err, r.r.$rem, r.r.$bufd, r.r.$under.$rem, p[:]
 
